@@ -676,6 +676,10 @@ class Manager:
 
     def _eventDone(self, event, err=None):
         if event.waitingHandlers:
+            if err is not None:
+                # Other handlers are still suspended; remember the failure
+                # for the deferred completion (no success feedback then).
+                event._handler_failed = True
             return
 
         # The "%s_done" event is for internal use by waitEvent only.
@@ -685,7 +689,7 @@ class Manager:
         if event.alert_done:
             self.fire(event.child('done', event.value.value), *event.channels)
 
-        if err is None and event.success:
+        if err is None and event.success and not getattr(event, '_handler_failed', False):
             channels = getattr(event, 'success_channels', event.channels)
             self.fire(event.child('success', event, event.value.value), *channels)
 
